@@ -2724,5 +2724,24 @@ theorem stage_ok (t : RawTree) (hT : TreeOK t) (hpop : Populated t) (lk : Lookup
     cases ha
     exact ⟨hpa, hpc, hass, hrep'⟩
 
+/-- a tree accepted by `validate_taxonomy_tree` whose level names are distinct
+and whose per-level dicts have distinct node names is well formed in the sense
+the marker theorems need -/
+theorem treeWF_of_validate (t : RawTree) (hv : t.validate = .ok ()) (hN : t.hierarchy.Nodup)
+    (hne : t.hierarchy ≠ []) (hK : ∀ l ∈ t.hierarchy, (t.nodesAt l).Nodup) : TreeWF t := by
+  refine ⟨hN, hne, ?_, hK⟩
+  unfold RawTree.validate RawTree.validateWith at hv
+  by_cases h1 : (!t.hasHierarchy) = true
+  · simp [h1] at hv
+  · simp only [h1, Bool.false_eq_true, if_false] at hv
+    by_cases h2 : (!t.keysMatch) = true
+    · simp [h2] at hv
+    · simp only [Bool.not_eq_true', Bool.not_eq_false] at h2
+      unfold RawTree.keysMatch at h2
+      simp only [Bool.and_eq_true, List.all_eq_true] at h2
+      intro l hl
+      have := h2.2 l hl
+      simpa using this
+
 end Markers
 end CTM
